@@ -54,6 +54,10 @@ class Trace:
                 elif act[0] == "task":
                     if act[1] < len(running):
                         self.task_done.append((step, running.pop(act[1])))
+            for (_e, y, t_) in o.get("reacts", []):
+                # emits made by the consumer inside a hand-over of this step (after the step's own emits)
+                self.inputs.append(dict(eid=eid, src=0, val=y, md=[], step=step, t=t_))
+                eid += 1
             for x in o.get("started", []):
                 running.append(x)
                 self.started.append((step, x))
